@@ -1,6 +1,10 @@
 /* harness/h_misc.c - obligations on modules/iauth_misc.c (C12, C13) */
 #include "vh.h"
 #include "spec/misc.contracts.h"
+/* The real translation unit is included verbatim (found in the staged copy of /repo through
+ * -I) so that the contract of the file-static irc_pton_ip4 in spec/misc.contracts.h attaches
+ * to its definition.  Nothing is dropped or renamed. */
+#include "modules/iauth_misc.c"
 
 irc_inaddr in_a, in_m;
 unsigned int in_bits;
@@ -14,5 +18,93 @@ void h_check_mask(void)
     r = irc_check_mask(&in_a, &in_m, in_bits);
     V_ASSERT((r != 0) == (spec_prefix_equal(&in_a, &in_m, in_bits) != 0),
              "C13: irc_check_mask succeeds exactly when the leading <bits> bits are equal");
+    V_CANARY();
+}
+
+/* ---------------------------------------------------------------------------------------
+ * C12: print -> parse round trip.  Sharded by -DZP=<mask>: bit i set <=> group i is zero
+ * (the abstraction that drives the printer); non-zero groups stay fully symbolic, so the
+ * union of the 256 shards (+ the IPv4 forms, selected inside by the address itself) is all
+ * 2^128 addresses.  -DDIGITS=k additionally restricts every non-zero group to k hex digits
+ * (quick slice; makes every text position concrete).
+ */
+#ifndef ZP
+#define ZP 0
+#endif
+struct { char s[IRC_NTOP_MAX]; } in_text;
+
+static int shard_ok(const irc_inaddr *a)
+{
+    unsigned i;
+    for (i = 0; i < 8; i++) {
+        unsigned v = ntohs(a->in6[i]);
+        if ((v == 0) != (((ZP) >> i) & 1))
+            return 0;
+#ifdef V4MAPPED
+        if (i == 5 && v != 0xffff) return 0;
+#else
+        if (i == 5 && (((ZP) & 0x5f) == 0x1f) && v == 0xffff) return 0;   /* covered by the V4MAPPED shard */
+#endif
+#ifdef DIGITS
+        if (v != 0 && !(v >= (1u << (4 * (DIGITS - 1))) && (DIGITS == 4 || v < (1u << (4 * DIGITS)))))
+            return 0;
+#endif
+    }
+    return 1;
+}
+
+void h_ntop_roundtrip(void)
+{
+    char buf[IRC_NTOP_MAX], buf2[IRC_NTOP_MAX];
+    irc_inaddr back, want, ref;
+    unsigned int n, r, n2, i;
+
+    V_IN(in_a);
+    V_ASSUME(shard_ok(&in_a));
+    ctype_init();
+    for (i = 0; i < IRC_NTOP_MAX; i++) buf[i] = 'X';
+    n = irc_ntop(buf, sizeof(buf), &in_a);
+    V_ASSERT(n < IRC_NTOP_MAX, "C12: the text fits the documented buffer size (IRC_NTOP_MAX)");
+    V_ASSERT(n > 0 && buf[n < IRC_NTOP_MAX ? n : 0] == '\0', "C12: the text is NUL-terminated at the returned length");
+    V_ASSERT(buf[0] != ':', "C12: the text never begins with ':'");
+    spec_canon(&want, &in_a);
+    r = irc_pton(&back, NULL, buf, 0);
+    V_ASSERT(r == n, "C12: the daemon's own parser accepts the whole text it printed");
+    V_ASSERT(spec_addr_eq(&back, &want), "C12: the parsed text denotes the same address (IPv4-compatible canonicalised to IPv4-mapped)");
+#ifndef C12_CORE_ONLY
+    V_ASSERT(spec_parse_addr(buf, IRC_NTOP_MAX, &ref) == 1, "C12: the text is accepted by the standard parser (RFC 4291 reference parser)");
+    V_ASSERT(spec_addr_eq(&ref, &want), "C12: the standard parser reads the same address");
+    n2 = irc_ntop(buf2, sizeof(buf2), &back);
+    V_ASSERT(n2 == n, "C12: parse-then-print is idempotent (length)");
+    for (i = 0; i < IRC_NTOP_MAX; i++)
+        if (i <= n && i <= n2)
+            V_ASSERT(buf2[i] == buf[i], "C12: parse-then-print is idempotent (text)");
+#endif
+    V_CANARY();
+}
+
+/* ---------------------------------------------------------------------------------------
+ * C13 / C12 support: the static dotted-quad parser against (a) its frame-only contract
+ * (DFCC enforce: writes nothing but *output and *pbits, reads inside the string only) and
+ * (b) the executable contract stubs/pton_ip4_contract.c that the C12 IPv4 shards rely on.
+ */
+#include "spec/ip4_quad_spec.h"
+struct { char s[17]; } in_q;
+int in_have_bits, in_trailing;
+
+void h_pton_ip4_quad(void)
+{
+    unsigned int bits = 77, r, want;
+    uint32_t out = 0, ip = 0;
+    V_IN(in_q); V_IN(in_have_bits); V_IN(in_trailing);
+    V_ASSUME(in_q.s[16] == '\0');
+    want = ip4_quad_spec(in_q.s, &ip);
+    r = irc_pton_ip4(in_q.s, in_have_bits ? &bits : NULL, &out, in_trailing);
+    if (want) {
+        V_ASSERT(r == want, "irc_pton_ip4 consumes exactly a plain canonical dotted quad");
+        V_ASSERT(out == ip, "irc_pton_ip4 stores the quad's address in network byte order");
+        V_ASSERT(!in_have_bits || bits == 32, "irc_pton_ip4 reports 32 bits for a plain quad");
+    }
+    V_ASSERT(r <= 16, "irc_pton_ip4 never claims to have read past the terminator");
     V_CANARY();
 }
